@@ -275,6 +275,30 @@ func C08Gen(r *Run) {
 			}
 		}
 	}
+	// 2b. keys that pass through LISTS (bmeg/jsonpath maps a member name over the objects of a list,
+	// nested lists included; scalars and objects without the member are skipped)
+	listDocs := []map[string]interface{}{
+		{"samples": []interface{}{map[string]interface{}{"tissue": "lung"}, map[string]interface{}{"tissue": "skin"}}},
+		{"samples": []interface{}{map[string]interface{}{"tissue": "lung"}, map[string]interface{}{"x": 1.0}}},
+		{"samples": []interface{}{map[string]interface{}{"tissue": "lung"}, 5.0, "s", nil, []interface{}{map[string]interface{}{"tissue": "in"}}}},
+		{"samples": []interface{}{}},
+		{"samples": []interface{}{map[string]interface{}{"tissue": map[string]interface{}{"a": 1.0}}, map[string]interface{}{"tissue": []interface{}{1.0, 2.0}}}},
+		{"samples": []interface{}{map[string]interface{}{"t": []interface{}{map[string]interface{}{"u": 1.0}, map[string]interface{}{"u": 2.0}}}, map[string]interface{}{"t": []interface{}{map[string]interface{}{"u": 3.0}}}}},
+		{"samples": map[string]interface{}{"tissue": "lung"}},
+		{"samples": "lung"},
+	}
+	for _, data := range listDocs {
+		for _, k := range []string{"samples.tissue", "samples.t.u", "samples.tissue.a", "samples", "$.samples.tissue"} {
+			for _, c := range c08CondNames {
+				for _, a := range []interface{}{"lung", "skin", []interface{}{"lung", "skin"}, []interface{}{"lung"}, []interface{}{}, nil, 1.0,
+					[]interface{}{[]interface{}{1.0, 2.0}, []interface{}{3.0}}, []interface{}{1.0, []interface{}{}}} {
+					emit(map[string]interface{}{"op": "match", "elem": c08Elem(data),
+						"expr": map[string]interface{}{"c": c, "k": k, "v": Tag(a)}})
+					r.Dist["keys-through-lists"]++
+				}
+			}
+		}
+	}
 	// 3. Boolean combinations, exhaustive to the depth bound over a small leaf set
 	leaves := []map[string]interface{}{
 		{"c": "gt", "k": "x", "v": Tag(1.0)},
